@@ -1,4 +1,5 @@
 import NdonnxVerif.Lemmas.HeapSim
+import NdonnxVerif.Lemmas.Broadcast
 /-!
 # C01 — an exported model computes exactly what eager evaluation computes
 
@@ -81,5 +82,27 @@ example :
     (runProg sem true (fun _ => false) p []).map (·.map (·.eager)) = some [some 12, some 7, some 12]
     ∧ (runProg sem true (· == "x") p []).map (·.map (fun c => eval sem (fun n => if n == "x" then some 5 else none) c.var))
         = some [some 12, some 7, some 12] := by decide
+
+/-! ## The value-dependent shortcuts: their guards make them shape-neutral
+
+The shortcuts of `logical_and/or` (return the other operand when one operand is a data-holding single
+element of rank ≤ the other's) and of `where` (return the selected branch for a data-holding
+single-element condition; since the repair only when the other branch provably broadcasts into it)
+replace a broadcasting operator by a copy.  They do not change the answer because, under exactly these
+guards, broadcasting leaves the returned operand's shape unchanged — for every rank and all extents. -/
+
+theorem logical_shortcut_shape_neutral (s t : List Nat) (h : singleElementOfRankLe s t = true) :
+    bshape s t = some t := bshape_of_single_element s t h
+
+theorem where_shortcut_shape_neutral (c x y : List Nat) (hc : knownToBroadcastInto c x = true)
+    (hy : knownToBroadcastInto y x = true) : (bshape c x).bind (fun cx => bshape cx y) = some x :=
+  where_shortcut_shape c x y hc hy
+
+/-- The guard on the unselected branch is necessary (the defect repaired in `/repo`). -/
+theorem where_shortcut_unsound_without_guard :
+    (bshape [] [1]).bind (fun cx => bshape cx [3]) = some [3] ∧ knownToBroadcastInto [3] [1] = false :=
+  where_shortcut_needs_guard
+
+example : singleElementOfRankLe [1, 1] [4, 5] = true ∧ bshape [1, 1] [4, 5] = some [4, 5] := by decide
 
 end Ndx.C01
